@@ -63,10 +63,24 @@ fn render(config: &delta::verif_hooks::Config, data: Vec<u8>) -> Result<Vec<u8>,
     }
 }
 
+pub fn render_whole(case: &Case) -> Option<Vec<u8>> {
+    let config = make_config(&case.args).ok()?;
+    let mut whole_in = Vec::new();
+    for s in &case.sections {
+        whole_in.extend_from_slice(&gen::to_bytes(s));
+    }
+    render(&config, whole_in).ok()
+}
+
 pub fn check_case(case: &Case) -> (Option<Violation>, u64) {
+    let (v, r, _) = check_case_full(case);
+    (v, r)
+}
+
+pub fn check_case_full(case: &Case) -> (Option<Violation>, u64, Option<Vec<u8>>) {
     let config = match make_config(&case.args) {
         Ok(c) => c,
-        Err(_) => return (None, 0),
+        Err(_) => return (None, 0, None),
     };
     let mut whole_in = Vec::new();
     let mut parts = Vec::new();
@@ -76,13 +90,13 @@ pub fn check_case(case: &Case) -> (Option<Violation>, u64) {
         whole_in.extend_from_slice(&b);
         match render(&config, b) {
             Ok(o) => parts.push(o),
-            Err(_) => return (None, runs),
+            Err(_) => return (None, runs, None),
         }
         runs += 1;
     }
     let whole = match render(&config, whole_in) {
         Ok(o) => o,
-        Err(_) => return (None, runs),
+        Err(_) => return (None, runs, None),
     };
     runs += 1;
     let concat: Vec<u8> = parts.concat();
@@ -113,9 +127,10 @@ pub fn check_case(case: &Case) -> (Option<Violation>, u64) {
                 format!("output for sections {:?} differs from the concatenation of the outputs for each section alone; first difference in or after section {} ({} after {}), args {:?}. together: [{}]  separately: [{}]", case.kinds, where_, cur, prev, case.args, ctx(&w), ctx(&c)),
             )),
             runs,
+            Some(whole),
         );
     }
-    (None, runs)
+    (None, runs, Some(whole))
 }
 
 pub fn main_c10(tier: &str, seed: u64, replay: Option<&str>) -> i32 {
@@ -170,7 +185,20 @@ pub fn main_c10(tier: &str, seed: u64, replay: Option<&str>) -> i32 {
     }
     let results = crate::par_map(specs.len(), &|i| {
         let case = gen_case(seed, i, &specs[i].0, specs[i].1);
-        check_case(&case)
+        let c2 = case.clone();
+        // clause 1 under one hash seed ...
+        let (v, runs, whole) = on_fresh_thread(mix(seed, &[tag("C10-hashA"), i as u64]), move || check_case_full(&case));
+        if v.is_some() {
+            return (v, runs);
+        }
+        // ... and clause 2 in process: the same input under different hash keys gives the same bytes
+        let other = on_fresh_thread(mix(seed, &[tag("C10-hashB"), i as u64]), move || render_whole(&c2));
+        if let (Some(a), Some(b)) = (&whole, &other) {
+            if a != b {
+                return (Some(Violation::new("R-deterministic", "det:e2:render", format!("the same sections {:?} with args {:?} rendered to different bytes under two hash-key seeds ({} vs {} bytes)", specs[i].0, MODES[specs[i].1 % MODES.len()], a.len(), b.len()))), runs + 1);
+            }
+        }
+        (None, runs + 1)
     });
     let known = load_known();
     let mut exit = 0;
